@@ -122,6 +122,7 @@ struct oscore_recipient_ctx_t {
   coap_bin_const_t *recipient_id;
   uint8_t echo_value[8];
   uint8_t initial_state;
+  uint8_t rollback_initial_state;
 };
 
 #define OSCORE_ASSOCIATIONS_ADD(r, obj)                                        \
